@@ -28,6 +28,8 @@ def plan(tier, seed):
     n = 60 if tier == 'quick' else 1500
     cases = [{'family': 'main', 'cseed': rnd.randrange(1 << 30)} for _ in range(n)]
     cases += [{'family': 'convergent', 'cseed': rnd.randrange(1 << 30)} for _ in range(16 if tier == 'quick' else 300)]
+    # circuits whose edges run through EdgeTemplates (incl. two-input edge operators): every swept circuit has its own edge instances
+    cases += [{'family': 'edge_templates', 'cseed': rnd.randrange(1 << 30)} for _ in range(16 if tier == 'quick' else 300)]
     return cases
 
 
@@ -45,12 +47,13 @@ def run_case(case, ctx):
     # element of a target group" (the C04 finding for a circuit compiled on its own) becomes an ordinary many-to-one bundle
     convergent = case.get('family') == 'convergent'
     for attempt in range(100):
-        base, feats, risk = c04.make_spec({'cseed': rnd.randrange(1 << 30), 'want': 'vec_single_target_multi_source' if convergent else None},
+        base, feats, risk = c04.make_spec({'cseed': rnd.randrange(1 << 30), 'want': 'vec_single_target_multi_source' if convergent else None,
+                                           'family': 'edge_templates' if case.get('family') == 'edge_templates' else 'main'},
                                           ctx['excluded'])
         ref0 = RefModel(base)
         if max(n.count('/') for n in ref0.node_order) <= 1 and ref0.state_keys:
             break
-    vec = rnd.random() < 0.5 or convergent
+    vec = rnd.random() < 0.5 or convergent or case.get('family') == 'edge_templates'
     if vec:
         for o in base['ops'].values():
             for v, d in o['vars'].items():
